@@ -8,10 +8,10 @@ pub mod contracts;
 pub mod oracle;
 pub mod arb;
 pub mod util;
-pub mod scratch;
 
 pub mod h_varint;
 pub mod h_ids;
+pub mod h_misc;
 
 /// Counterexample replay: `cargo kani playback` compiles the crate with cfg(kani) + cfg(test);
 /// the check driver writes the solver's concrete values (the unit test printed by
@@ -20,6 +20,7 @@ pub mod h_ids;
 mod playback {
     use super::h_ids::*;
     use super::h_varint::*;
+    use super::h_misc::*;
     use crate::frame::verif_kani::*;
     use crate::qpack::verif_kani::*;
     use crate::stream_header::verif_kani::*;
